@@ -256,6 +256,123 @@ Proof.
   rewrite IH by (intros; apply Hc; auto). rewrite Hc by auto. reflexivity.
 Qed.
 
+Lemma path_eqb_sym_b p q : path_eqb p q = path_eqb q p.
+Proof.
+  destruct (path_eqb_spec p q) as [->|Hn]; [now rewrite path_eqb_refl|].
+  destruct (path_eqb_spec q p); congruence.
+Qed.
+
+(** ** what the queue will do to the set of paths the client holds *)
+
+(** a queue entry as an event on the client's tree: add or delete of a path *)
+Definition ev (H : heap) (i : qitem) : option (bool * path) :=
+  match i with
+  | QLeaf g => match hget H g with Some r => Some (true, full_path r) | None => None end
+  | QDel d => Some (false, del_full d)
+  | QSync => None
+  end.
+
+Definition conflict (a b : path) : bool := strict_prefix a b || strict_prefix b a.
+
+Definition condD (dom : path -> bool) (e : option (bool * path)) : Prop :=
+  match e with
+  | None => True
+  | Some (true, p) => forall s, dom s = true -> conflict s p = false      (* the Add succeeds *)
+  | Some (false, p) => forall s, dom s = true -> strict_prefix p s = false (* the Delete removes one leaf at most *)
+  end.
+
+Definition stepD (dom : path -> bool) (e : option (bool * path)) : path -> bool :=
+  match e with
+  | None => dom
+  | Some (true, p) => fun s => path_eqb s p || dom s
+  | Some (false, p) => fun s => negb (path_eqb s p) && dom s
+  end.
+
+(** every event of the queue finds the tree in a state in which it acts on
+    exactly its own path *)
+Fixpoint safeD (dom : path -> bool) (q : list (option (bool * path))) : Prop :=
+  match q with
+  | [] => True
+  | e :: q' => condD dom e /\ safeD (stepD dom e) q'
+  end.
+
+Fixpoint finalD (dom : path -> bool) (q : list (option (bool * path))) (p : path) : bool :=
+  match q with
+  | [] => dom p
+  | e :: q' => finalD (stepD dom e) q' p
+  end.
+
+Lemma condD_ext d1 d2 e : (forall s, d1 s = d2 s) -> condD d1 e -> condD d2 e.
+Proof. intros He. destruct e as [[[|] p]|]; cbn; auto; intros Hc s Hs; apply Hc; now rewrite He. Qed.
+
+Lemma stepD_ext d1 d2 e : (forall s, d1 s = d2 s) -> forall s, stepD d1 e s = stepD d2 e s.
+Proof. intros He s. destruct e as [[[|] p]|]; cbn; now rewrite ?He. Qed.
+
+Lemma safeD_ext q : forall d1 d2, (forall s, d1 s = d2 s) -> safeD d1 q -> safeD d2 q.
+Proof.
+  induction q as [|e q IH]; cbn; intros d1 d2 He; [auto|]. intros [Hc Hs]. split.
+  - eapply condD_ext; eauto.
+  - eapply IH; [|exact Hs]. now apply stepD_ext.
+Qed.
+
+Lemma finalD_ext q : forall d1 d2 p, (forall s, d1 s = d2 s) -> finalD d1 q p = finalD d2 q p.
+Proof.
+  induction q as [|e q IH]; cbn; intros d1 d2 p He; [apply He|]. apply IH. now apply stepD_ext.
+Qed.
+
+Lemma safeD_app q1 : forall dom q2,
+  safeD dom (q1 ++ q2) <-> safeD dom q1 /\ safeD (fun s => finalD dom q1 s) q2.
+Proof.
+  induction q1 as [|e q1 IH]; cbn; intros dom q2.
+  - split; [intros H; split; [exact I|]|intros [_ H]]; eapply safeD_ext; try exact H; reflexivity.
+  - rewrite IH. tauto.
+Qed.
+
+(** the last event of [q] about [p] *)
+Fixpoint last_ev (p : path) (q : list (option (bool * path))) : option bool :=
+  match q with
+  | [] => None
+  | e :: q' =>
+      match last_ev p q' with
+      | Some b => Some b
+      | None => match e with Some (b, p') => if path_eqb p' p then Some b else None | None => None end
+      end
+  end.
+
+Lemma finalD_last q : forall dom p,
+  finalD dom q p = match last_ev p q with Some b => b | None => dom p end.
+Proof.
+  induction q as [|e q IH]; cbn; intros dom p; [reflexivity|]. rewrite IH.
+  destruct (last_ev p q) as [b|]; [reflexivity|].
+  destruct e as [[[|] p']|]; cbn; rewrite ?(path_eqb_sym_b p p');
+    try destruct (path_eqb p' p); reflexivity.
+Qed.
+
+Lemma last_ev_conc H p q :
+  last_ev p (map (ev H) q) =
+  match last_conc H p q with
+  | Some i => match ev H i with Some (b, _) => Some b | None => None end
+  | None => None
+  end.
+Proof.
+  induction q as [|i q IH]; cbn [map last_ev last_conc]; [reflexivity|]. rewrite IH.
+  destruct (last_conc H p q) as [j|] eqn:El.
+  - apply last_conc_In in El as [_ Hc]. destruct j as [g|d|]; cbn [ev concerns] in *; try discriminate.
+    + destruct (hget H g); [reflexivity|discriminate].
+    + reflexivity.
+  - destruct i as [g|d|]; cbn [ev concerns]; try reflexivity.
+    + destruct (hget H g) as [r|] eqn:Hr; [|reflexivity].
+      destruct (path_eqb (full_path r) p); cbn [ev]; rewrite ?Hr; reflexivity.
+    + destruct (path_eqb (del_full d) p); reflexivity.
+Qed.
+
+Lemma ev_ext H H' q :
+  (forall i, In i q -> ev H' i = ev H i) -> map (ev H') q = map (ev H) q.
+Proof. intros He. apply map_ext_in. exact He. Qed.
+
+Definition dom_of (t : tree scalar) : path -> bool :=
+  fun s => match lookup t s with Some _ => true | None => false end.
+
 Definition sub_none (o : option subscriber) : bool := match o with None => true | Some _ => false end.
 
 Lemma feed_leaf_none o g p : sub_none (feed_leaf o g p) = sub_none o.
@@ -304,18 +421,11 @@ Proof.
   now rewrite Hd, Hu.
 Qed.
 
-Lemma path_eqb_sym_b p q : path_eqb p q = path_eqb q p.
-Proof.
-  destruct (path_eqb_spec p q) as [->|Hn]; [now rewrite path_eqb_refl|].
-  destruct (path_eqb_spec q p); congruence.
-Qed.
-
 Section Relay.
 Variable name : string.
 Variable Keys : path -> Prop.          (* the target's schema: origin :: path strings *)
 Variable Vals : tv -> Prop.            (* the values the target sends *)
 Variable Q Qr : path.                  (* the registered query *)
-Hypothesis Keys_pf : forall a b, Keys a -> Keys b -> strict_prefix a b = false.
 Hypothesis Keys_gf : forall a, Keys a -> glob_free a = true.
 Hypothesis Vals_dec : forall v, Vals v -> to_scalar v <> None.
 Hypothesis Vals_canon : forall a b, Vals a -> Vals b -> tv_equal a b = true -> to_scalar a = to_scalar b.
@@ -378,7 +488,8 @@ Record sub_inv (T : tree nat) (H : heap) (TF : tfun) (sb : subscriber) : Prop :=
   si_final : forall k, Keys k ->
       final H (cl_tree (sb_client sb)) (sb_queue sb) (name :: k) = if under k then decode (TF k) else None;
   si_live : forall k g, lookup T k = Some g ->
-      match last_conc H (name :: k) (sb_queue sb) with None => True | Some i => i = QLeaf g end
+      match last_conc H (name :: k) (sb_queue sb) with None => True | Some i => i = QLeaf g end;
+  si_safe : safeD (dom_of (cl_tree (sb_client sb))) (map (ev H) (sb_queue sb))
 }.
 
 Record ninv (T : tree nat) (H : heap) (gen : nat) (sub : option subscriber) (TF : tfun) : Prop := {
@@ -387,16 +498,18 @@ Record ninv (T : tree nat) (H : heap) (gen : nat) (sub : option subscriber) (TF 
       (g < gen)%nat /\ exists r, hget H g = Some r /\ rec_ok r /\ idx r = k /\ TF k = Some (lr_ts r, lr_val r);
   ni_spec : forall k x, TF k = Some x -> exists g, lookup T k = Some g;
   ni_heap : forall g r, hget H g = Some r -> (g < gen)%nat;
+  ni_pf : forall a b x y, TF a = Some x -> TF b = Some y -> strict_prefix a b = false;
   ni_sub : match sub with None => True | Some sb => sub_inv T H TF sb end
 }.
 
 Lemma ninv_ext T H gen sub TF TF' :
   (forall k, TF' k = TF k) -> ninv T H gen sub TF -> ninv T H gen sub TF'.
 Proof.
-  intros He [H1 H2 H3 H4 H5]. constructor; auto.
+  intros He [H1 H2 H3 H4 Hpf H5]. constructor; auto.
   - intros k g Hl. destruct (H2 k g Hl) as (? & r & ? & ? & ? & ?). split; [assumption|].
     exists r. rewrite He. auto.
   - intros k x. rewrite He. apply H3.
+  - intros a b x y. rewrite !He. apply Hpf.
   - destruct sub as [sb|]; [|exact I]. destruct H5. constructor; auto.
     intros k Hk. rewrite He. auto.
 Qed.
@@ -450,11 +563,36 @@ Proof.
   rewrite (concerns_under H i k (Hit i Hin) Hc) in Hu. discriminate.
 Qed.
 
+Lemma conflict_cons a k1 k2 : conflict (a :: k1) (a :: k2) = conflict k1 k2.
+Proof. unfold conflict. now rewrite !strict_prefix_cons, String.eqb_refl. Qed.
+
+(** whatever the client will hold once the queue is delivered is a live key of
+    the specification state *)
+Lemma finalD_TF T H TF sb s :
+  sub_inv T H TF sb ->
+  finalD (dom_of (cl_tree (sb_client sb))) (map (ev H) (sb_queue sb)) s = true ->
+  exists k, s = name :: k /\ Keys k /\ TF k <> None.
+Proof.
+  intros [S1 S2 S3 S4 S5 S6 S7 S8] Hf. rewrite finalD_last, last_ev_conc in Hf.
+  destruct (last_conc H s (sb_queue sb)) as [i|] eqn:El.
+  - destruct (last_conc_In _ _ _ _ El) as [Hi Hc]. specialize (S5 i Hi).
+    destruct i as [g|d|]; cbn [ev item_ok concerns] in *; [|discriminate|discriminate].
+    destruct S5 as (r & Hr & Hok & Hu). rewrite Hr in Hf, Hc. apply path_eqb_eq in Hc.
+    rewrite (full_path_ok r Hok) in Hc. subst s. exists (idx r). split; [reflexivity|]. split; [apply Hok|].
+    specialize (S6 _ (ro_key r Hok)). unfold final in S6. rewrite El, Hr, Hu in S6.
+    intros E. rewrite E in S6. cbn in S6. apply (Vals_dec _ (ro_val r Hok)). exact S6.
+  - unfold dom_of in Hf. destruct (lookup (cl_tree (sb_client sb)) s) as [v|] eqn:Hl; [|discriminate].
+    destruct (S4 _ _ Hl) as (k & -> & Hk). exists k. split; [reflexivity|]. split; [assumption|].
+    specialize (S6 k Hk). unfold final in S6. rewrite El, Hl in S6. destruct (under k); [|discriminate].
+    intros E. rewrite E in S6. discriminate.
+Qed.
+
 (** ** an update of a leaf the cache already holds *)
 Lemma sub_upd_existing T H TF sb g old r q' :
   sub_inv T H TF sb ->
   lookup T (idx r) = Some g -> hget H g = Some old -> rec_ok old -> idx old = idx r -> rec_ok r ->
   TF (idx r) = Some (lr_ts old, lr_val old) ->
+  (forall k', TF k' <> None -> conflict k' (idx r) = false) ->
   (q' = sb_queue sb /\ (existsb (qitem_is_leaf g) (sb_queue sb) = true
                         \/ to_scalar (lr_val old) = to_scalar (lr_val r)
                         \/ under (idx r) = false))
@@ -462,7 +600,7 @@ Lemma sub_upd_existing T H TF sb g old r q' :
   sub_inv T (hset H g r) (tfset TF (idx r) (lr_ts r) (lr_val r))
     {| sb_target := sb_target sb; sb_query := sb_query sb; sb_queue := q'; sb_client := sb_client sb |}.
 Proof.
-  intros [S1 S2 S3 S4 S5 S6 S7] Hlk Hold Hoko Hidx Hr Htf Hq'.
+  intros Hsi Hlk Hold Hoko Hidx Hr Htf Hpf Hq'. pose proof Hsi as [S1 S2 S3 S4 S5 S6 S7 S8].
   assert (Hfp : full_path old = full_path r)
     by (rewrite (full_path_ok old Hoko), (full_path_ok r Hr); congruence).
   assert (Hconc : forall p i, concerns (hset H g r) p i = concerns H p i)
@@ -517,6 +655,15 @@ Proof.
       destruct Hq' as [[-> _]|[-> _]]; [assumption|].
       rewrite last_conc_app. cbn [last_conc]. now rewrite Hcg, path_eqb_refl.
     + rewrite (Hlast' k Hne). now apply S7.
+  - (* safe *)
+    assert (Hev : forall i, ev (hset H g r) i = ev H i).
+    { intros i. destruct i as [g1|d|]; cbn [ev]; try reflexivity. rewrite hget_hset.
+      destruct (Nat.eqb_spec g1 g) as [->|_]; [|reflexivity]. now rewrite Hold, Hfp. }
+    rewrite (ev_ext H (hset H g r) q') by (intros; apply Hev).
+    destruct Hq' as [[-> _]|[-> Hu]]; [assumption|].
+    rewrite map_app. apply safeD_app. split; [assumption|]. cbn [map safeD ev]. rewrite Hold. split; [|exact I].
+    cbn [condD]. intros s Hs. destruct (finalD_TF _ _ _ _ s Hsi Hs) as (k' & -> & _ & Hk').
+    rewrite (full_path_ok old Hoko), Hidx, conflict_cons. now apply Hpf.
 Qed.
 
 
@@ -526,11 +673,12 @@ Lemma sub_upd_new T T' H gen TF sb r q' :
   (forall g0 r0, hget H g0 = Some r0 -> (g0 < gen)%nat) ->
   (forall k, lookup T' k = if path_eqb k (idx r) then Some gen else lookup T k) ->
   lookup T (idx r) = None -> TF (idx r) = None -> rec_ok r ->
+  (forall k', TF k' <> None -> conflict k' (idx r) = false) ->
   q' = (if under (idx r) then sb_queue sb ++ [QLeaf gen] else sb_queue sb) ->
   sub_inv T' (hset H gen r) (tfset TF (idx r) (lr_ts r) (lr_val r))
     {| sb_target := sb_target sb; sb_query := sb_query sb; sb_queue := q'; sb_client := sb_client sb |}.
 Proof.
-  intros [S1 S2 S3 S4 S5 S6 S7] Hheap HT' Hnone Htf Hr ->.
+  intros Hsi Hheap HT' Hnone Htf Hr Hpf ->. pose proof Hsi as [S1 S2 S3 S4 S5 S6 S7 S8].
   assert (Hfresh : hget H gen = None).
   { destruct (hget H gen) as [r0|] eqn:E; [|reflexivity]. apply Hheap in E. lia. }
   assert (Hconc : forall p i, In i (sb_queue sb) -> concerns (hset H gen r) p i = concerns H p i).
@@ -575,6 +723,14 @@ Proof.
     + inversion Hl'; subst g'. rewrite andb_true_r. destruct (under (idx r)) eqn:Hu; [reflexivity|].
       now rewrite (not_under_last H _ _ S5 Hu).
     + rewrite andb_false_r. now apply S7.
+  - (* safe *)
+    assert (Hev : map (ev (hset H gen r)) (sb_queue sb) = map (ev H) (sb_queue sb)).
+    { apply ev_ext. intros i Hi. destruct i as [g1|d|]; cbn [ev]; try reflexivity. now rewrite (Hget g1 Hi). }
+    destruct (under (idx r)); [|now rewrite Hev].
+    rewrite map_app, Hev. apply safeD_app. split; [assumption|]. cbn [map safeD ev].
+    rewrite hget_hset, Nat.eqb_refl. split; [|exact I]. cbn [condD]. intros s Hs.
+    destruct (finalD_TF _ _ _ _ s Hsi Hs) as (k' & -> & _ & Hk').
+    rewrite (full_path_ok r Hr), conflict_cons. now apply Hpf.
 Qed.
 
 Lemma get_branch_lookup (T : tree nat) k cs :
@@ -587,16 +743,27 @@ Qed.
 Lemma update_step T H gen sub TF r :
   ninv T H gen sub TF -> rec_ok r ->
   (forall k t0 v, TF k = Some (t0, v) -> t0 <= lr_ts r) ->
+  (forall k', TF k' <> None -> conflict k' (idx r) = false) ->
   let w := cache_update_one {| w_tree := T; w_heap := H; w_gen := gen; w_sub := sub; w_fault := None |} r in
   w_fault w = None /\
   ninv (w_tree w) (w_heap w) (w_gen w) (w_sub w) (tfset TF (idx r) (lr_ts r) (lr_val r)).
 Proof.
-  intros Hinv Hr Hts. unfold cache_update_one. cbn [w_fault w_tree w_heap w_gen w_sub].
+  intros Hinv Hr Hts Hnc. unfold cache_update_one. cbn [w_fault w_tree w_heap w_gen w_sub].
   rewrite (join_ok r Hr).
   assert (Hcons : exists tl, idx r = g_origin (lr_prefix r) :: tl) by (eexists; reflexivity).
   destruct Hcons as (tl & Hcons). rewrite Hcons. cbv beta iota. rewrite <- Hcons.
   destruct (String.eqb_spec (g_origin (lr_prefix r)) meta_root) as [E|_]; [now apply (ro_meta r Hr) in E|].
-  destruct Hinv as [N1 N2 N3 N4 N5].
+  destruct Hinv as [N1 N2 N3 N4 Npf N5].
+  assert (Hpf' : forall a b x y, tfset TF (idx r) (lr_ts r) (lr_val r) a = Some x ->
+                   tfset TF (idx r) (lr_ts r) (lr_val r) b = Some y -> strict_prefix a b = false).
+  { intros a b x y. unfold tfset.
+    destruct (path_eqb_spec a (idx r)) as [->|Ha]; destruct (path_eqb_spec b (idx r)) as [->|Hb]; intros Ea Eb.
+    - unfold strict_prefix. now rewrite path_eqb_refl, andb_false_r.
+    - assert (Hc : conflict b (idx r) = false) by (apply Hnc; congruence).
+      unfold conflict in Hc. now apply orb_false_iff in Hc as [_ Hc].
+    - assert (Hc : conflict a (idx r) = false) by (apply Hnc; congruence).
+      unfold conflict in Hc. now apply orb_false_iff in Hc as [Hc _].
+    - eapply Npf; eauto. }
   destruct (get T (idx r)) as [[g|cs]|] eqn:Hget.
   - (* existing leaf *)
     apply get_leaf_exact in Hget. destruct (N2 _ _ Hget) as (Hlt & old & Hold & Hoko & Hidx & Htf).
@@ -621,7 +788,7 @@ Proof.
     assert (Hheap : forall g0 r0, hget (hset H g r) g0 = Some r0 -> (g0 < gen)%nat).
     { intros g0 r0. rewrite hget_hset. destruct (Nat.eqb_spec g0 g) as [->|_]; [auto|apply N4]. }
     destruct (tv_equal (lr_val old) (lr_val r)) eqn:Eeq; cbn [w_fault w_tree w_heap w_gen w_sub];
-      (split; [reflexivity|]); constructor; auto.
+      (split; [reflexivity|]); constructor; auto; try exact Hpf'.
     + destruct sub as [sb|]; [|exact I].
       replace sb with {| sb_target := sb_target sb; sb_query := sb_query sb; sb_queue := sb_queue sb;
                          sb_client := sb_client sb |} by (destruct sb; reflexivity).
@@ -639,9 +806,9 @@ Proof.
         eapply sub_upd_existing; eauto.
   - (* a branch where a leaf is written: impossible in a prefix-free schema *)
     exfalso. destruct (get_branch_lookup T _ _ N1 Hget) as (s & v & Hs & Hl).
-    destruct (N2 _ _ Hl) as (_ & r0 & _ & Hok0 & Hidx0 & _).
-    assert (Hk0 : Keys (idx r ++ s)) by (rewrite <- Hidx0; apply Hok0).
-    pose proof (Keys_pf _ _ (ro_key r Hr) Hk0) as Hpf.
+    destruct (N2 _ _ Hl) as (_ & r0 & _ & Hok0 & Hidx0 & Htf0).
+    assert (Hc : conflict (idx r ++ s) (idx r) = false) by (apply Hnc; congruence).
+    unfold conflict in Hc. apply orb_false_iff in Hc as [_ Hc].
     destruct s as [|a s]; [congruence|].
     assert (strict_prefix (idx r) (idx r ++ a :: s) = true) by (apply strict_prefix_spec; eauto). congruence.
   - (* new leaf *)
@@ -651,13 +818,13 @@ Proof.
     assert (Htfn : TF (idx r) = None).
     { destruct (TF (idx r)) as [x|] eqn:E; [|reflexivity]. destruct (N3 _ _ E) as (g & Hg). congruence. }
     assert (Hcf : conflict_free T (idx r)).
-    { intros q0 w Hq0. destruct (N2 _ _ Hq0) as (_ & r0 & _ & Hok0 & Hidx0 & _).
-      assert (Keys q0) by (rewrite <- Hidx0; apply Hok0).
-      split; apply Keys_pf; auto; apply Hr. }
+    { intros q0 w Hq0. destruct (N2 _ _ Hq0) as (_ & r0 & _ & _ & _ & Htf0).
+      assert (Hc : conflict q0 (idx r) = false) by (apply Hnc; congruence).
+      unfold conflict in Hc. now apply orb_false_iff in Hc. }
     destruct (add T (idx r) gen) as [T'|] eqn:Hadd.
     2:{ exfalso. apply (add_ok_iff T (idx r) gen N1) in Hcf. congruence. }
     destruct (add_spec T T' (idx r) gen N1 Hadd) as [Hwf' HT'].
-    cbn [w_fault w_tree w_heap w_gen w_sub]. split; [reflexivity|]. constructor; auto.
+    cbn [w_fault w_tree w_heap w_gen w_sub]. split; [reflexivity|]. constructor; auto; try exact Hpf'.
     + intros k g0. rewrite HT'. rewrite hget_hset. unfold tfset.
       destruct (path_eqb_spec k (idx r)) as [->|Hne].
       * intros E; inversion E; subst g0. split; [lia|]. rewrite Nat.eqb_refl. exists r. auto.
@@ -722,12 +889,13 @@ Proof. intros He []. constructor; auto. intros k Hk. rewrite He. auto. Qed.
 
 Lemma sub_del_one T' H TF sb D k old ts :
   sub_inv T' H (tf_minus TF D) sb -> rec_ok old -> idx old = k -> lookup T' k = None ->
+  (forall k', TF k' <> None -> strict_prefix k k' = false) ->
   match feed_del (Some sb) (to_delete old ts) with
   | Some sb' => sub_inv T' H (tf_minus TF (k :: D)) sb'
   | None => False
   end.
 Proof.
-  intros [S1 S2 S3 S4 S5 S6 S7] Hok Hidx Hdead. cbn [feed_del].
+  intros Hsi Hok Hidx Hdead Hpfk. pose proof Hsi as [S1 S2 S3 S4 S5 S6 S7 S8]. cbn [feed_del].
   change ((if str_nonempty (d_target (to_delete old ts)) then [d_target (to_delete old ts)] else []) ++
           (if str_nonempty (d_origin (to_delete old ts)) then [d_origin (to_delete old ts)] else []) ++
           to_strings_gp (d_path (to_delete old ts)) false) with (del_full (to_delete old ts)).
@@ -750,6 +918,10 @@ Proof.
     + intros k1 g1 Hl1. rewrite last_conc_app. cbn [last_conc]. rewrite Hcd.
       destruct (path_eqb_spec (name :: k) (name :: k1)) as [E|_]; [inversion E; congruence|].
       specialize (S7 _ _ Hl1). now destruct (last_conc H (name :: k1) (sb_queue sb)).
+    + rewrite map_app. apply safeD_app. split; [assumption|]. cbn [map safeD ev condD]. split; [|exact I].
+      intros s Hs. destruct (finalD_TF _ _ _ _ s Hsi Hs) as (k' & -> & _ & Hk').
+      rewrite (del_full_to_delete old ts Hok), Hidx, strict_prefix_cons, String.eqb_refl. cbn [andb].
+      apply Hpfk. unfold tf_minus in Hk'. destruct (mem k' D); [congruence|assumption].
   - constructor; auto. intros k1 Hk1. rewrite Htm. destruct (path_eqb_spec k1 k) as [->|_]; [|auto].
     specialize (S6 k Hk). rewrite Hu in S6. now rewrite Hu.
 Qed.
@@ -770,7 +942,7 @@ Lemma delete_step T H gen sub TF (pre d : gpath) ts :
   w_fault w = None /\
   ninv (w_tree w) (w_heap w) (w_gen w) (w_sub w) (tfdel TF (g_origin pre :: strs_of pre ++ strs_of d) ts).
 Proof.
-  intros [N1 N2 N3 N4 N5] Ht Ho Hm. unfold cache_delete_one. cbn [w_fault w_tree w_heap w_gen w_sub].
+  intros [N1 N2 N3 N4 Npf N5] Ht Ho Hm. unfold cache_delete_one. cbn [w_fault w_tree w_heap w_gen w_sub].
   rewrite (join_pre pre d Ht Ho). cbv beta iota.
   destruct (String.eqb_spec (g_origin pre) meta_root) as [E|_]; [contradiction|].
   set (dk := g_origin pre :: strs_of pre ++ strs_of d).
@@ -783,7 +955,10 @@ Proof.
     destruct (qmatch dk k && cond g0) eqn:E; [discriminate|]. intros E'; inversion E'; subst. auto. }
   assert (Hcond : forall k g r, lookup T k = Some g -> hget H g = Some r -> cond g = (lr_ts r <? ts)).
   { intros k g r _ Hr. unfold cond. now rewrite Hr. }
-  constructor; auto.
+  assert (Hpf' : forall a b x y, tfdel TF dk ts a = Some x -> tfdel TF dk ts b = Some y -> strict_prefix a b = false).
+  { intros a b x y. unfold tfdel. destruct (TF a) as [[ta va]|] eqn:Ea; [|discriminate].
+    destruct (TF b) as [[tb vb]|] eqn:Eb; [|discriminate]. intros _ _. eapply Npf; eauto. }
+  constructor; auto; try exact Hpf'.
   - intros k g Hl. destruct (Hsub _ _ Hl) as [Hl0 Hc]. destruct (N2 _ _ Hl0) as (Hlt & r & Hr & Hok & Hidx & Htf).
     split; [assumption|]. exists r. repeat (split; [assumption|]). unfold tfdel. rewrite Htf.
     rewrite (Hcond _ _ _ Hl0 Hr) in Hc. now rewrite Hc.
@@ -812,8 +987,10 @@ Proof.
       end).
     { induction l as [|[k g] l IH]; intros D s Hl Hs; cbn [fold_left map app]; [assumption|].
       destruct (Hl k g (or_introl eq_refl)) as [Hlk Hdead].
-      destruct (N2 _ _ Hlk) as (_ & old & Hold & Hoko & Hidx & _). cbn [snd]. rewrite Hold.
-      pose proof (sub_del_one T' H TF s D k old ts Hs Hoko Hidx Hdead) as Hone.
+      destruct (N2 _ _ Hlk) as (_ & old & Hold & Hoko & Hidx & Htfk). cbn [snd]. rewrite Hold.
+      assert (Hpfk : forall k', TF k' <> None -> strict_prefix k k' = false).
+      { intros k' Hk'. destruct (TF k') as [y|] eqn:Ey; [|congruence]. eapply Npf; eauto. }
+      pose proof (sub_del_one T' H TF s D k old ts Hs Hoko Hidx Hdead Hpfk) as Hone.
       destruct (feed_del (Some s) (to_delete old ts)) as [s1|]; [|contradiction].
       specialize (IH (k :: D) s1 (fun k0 g0 Hin => Hl k0 g0 (or_intror Hin)) Hone).
       destruct (fold_left _ l (Some s1)) as [s2|]; [|contradiction].
@@ -824,7 +1001,7 @@ Proof.
     { intros k g Hin. apply Hrem in Hin as (Hl & Hq & Hc). split; [assumption|].
       rewrite Hlk', Hl. unfold sel. now rewrite Hq, Hc. }
     assert (Hstart : sub_inv T' H (tf_minus TF []) sb).
-    { destruct N5 as [S1 S2 S3 S4 S5 S6 S7]. constructor; auto.
+    { destruct N5 as [S1 S2 S3 S4 S5 S6 S7 S8]. constructor; auto.
       intros k g Hl. destruct (Hsub _ _ Hl) as [Hl0 _]. now apply S7. }
     specialize (Hgen rl [] sb Hrl Hstart).
     destruct (fold_left _ rl (Some sb)) as [s'|]; [|contradiction].
@@ -872,68 +1049,80 @@ Proof.
   destruct (qmatch d k' && (t1 <? t')); [discriminate|]. intros E'; inversion E'; subst. eapply Hb; eauto.
 Qed.
 
+(** each update finds no stored path that is a proper prefix or extension of its own *)
+Fixpoint pf_upds (TF : tfun) (pre : gpath) (ts : Z) (us : list (gpath * tv)) : Prop :=
+  match us with
+  | [] => True
+  | u :: us' =>
+      (forall k', TF k' <> None -> conflict k' (skey pre (fst u)) = false)
+      /\ pf_upds (tfset TF (skey pre (fst u)) ts (snd u)) pre ts us'
+  end.
+
 Lemma noti_step w TF pre ts us ds :
   winv w TF -> tf_bound TF ts ->
   g_target pre = name -> g_origin pre <> "" -> g_origin pre <> meta_root ->
   (forall u, In u us -> rec_ok {| lr_ts := ts; lr_prefix := pre; lr_path := fst u; lr_val := snd u |}) ->
+  pf_upds TF pre ts us ->
   let n := {| n_ts := ts; n_prefix := Some pre; n_updates := us; n_deletes := ds |} in
   winv (target_gnmi_update w n pre) (tf_deletes (tf_updates TF pre ts us) pre ts ds)
   /\ tf_bound (tf_deletes (tf_updates TF pre ts us) pre ts ds) ts.
 Proof.
-  intros Hw Hb Ht Ho Hm Hus. cbn zeta. unfold target_gnmi_update. cbn [n_ts n_updates n_deletes].
+  intros Hw Hb Ht Ho Hm Hus Hpfu. cbn zeta. unfold target_gnmi_update. cbn [n_ts n_updates n_deletes].
   assert (Hu : forall us0 w TF, winv w TF -> tf_bound TF ts ->
     (forall u, In u us0 -> rec_ok {| lr_ts := ts; lr_prefix := pre; lr_path := fst u; lr_val := snd u |}) ->
+    pf_upds TF pre ts us0 ->
     winv (fold_left (fun w u => cache_update_one w {| lr_ts := ts; lr_prefix := pre; lr_path := fst u; lr_val := snd u |}) us0 w)
          (tf_updates TF pre ts us0) /\ tf_bound (tf_updates TF pre ts us0) ts).
-  { clear Hw Hb Hus w TF. induction us0 as [|u us0 IH]; intros w TF Hw Hb Hus; cbn [fold_left tf_updates]; [auto|].
-    apply IH.
+  { clear Hw Hb Hus Hpfu w TF. induction us0 as [|u us0 IH]; intros w TF Hw Hb Hus Hpfu;
+      cbn [fold_left tf_updates]; [auto|].
+    destruct Hpfu as [Hnc Hpfu]. apply IH.
     - destruct w as [T H gen sub flt]. destruct Hw as [Hf Hn]. cbn in Hf, Hn. subst flt.
-      apply (update_step T H gen sub TF _ Hn (Hus u (or_introl eq_refl))). exact Hb.
+      apply (update_step T H gen sub TF _ Hn (Hus u (or_introl eq_refl))); [exact Hb|exact Hnc].
     - now apply tf_bound_set.
-    - intros; apply Hus; now right. }
+    - intros; apply Hus; now right.
+    - exact Hpfu. }
   assert (Hd : forall ds0 w TF, winv w TF -> tf_bound TF ts ->
     winv (fold_left (cache_delete_one ts pre) ds0 w) (tf_deletes TF pre ts ds0)
     /\ tf_bound (tf_deletes TF pre ts ds0) ts).
-  { clear Hu Hus Hw Hb w TF. induction ds0 as [|d ds0 IH]; intros w TF Hw Hb; cbn [fold_left tf_deletes]; [auto|].
+  { clear Hu Hus Hpfu Hw Hb w TF. induction ds0 as [|d ds0 IH]; intros w TF Hw Hb; cbn [fold_left tf_deletes]; [auto|].
     apply IH.
     - destruct w as [T H gen sub flt]. destruct Hw as [Hf Hn]. cbn in Hf, Hn. subst flt.
       apply (delete_step T H gen sub TF pre d ts Hn Ht Ho Hm).
     - now apply tf_bound_del. }
-  destruct (Hu us w TF Hw Hb Hus) as [Hw1 Hb1]. now apply Hd.
+  destruct (Hu us w TF Hw Hb Hus Hpfu) as [Hw1 Hb1]. now apply Hd.
 Qed.
 
 
 (** ** the sender forwards one queue entry *)
 
 Lemma client_add_lookup (t : tree scalar) k s0 :
-  wf_tree t -> (forall p s, lookup t p = Some s -> exists k, p = name :: k /\ Keys k) -> Keys k ->
+  wf_tree t -> (forall s, dom_of t s = true -> conflict s (name :: k) = false) ->
   exists t', add t (name :: k) s0 = Some t' /\ wf_tree t' /\
              forall p, lookup t' p = if path_eqb p (name :: k) then Some s0 else lookup t p.
 Proof.
-  intros Hwf Hst Hk.
+  intros Hwf Hc.
   assert (Hcf : conflict_free t (name :: k)).
-  { intros p w Hp. destruct (Hst _ _ Hp) as (k2 & -> & Hk2). rewrite !strict_prefix_cons.
-    rewrite (Keys_pf _ _ Hk2 Hk), (Keys_pf _ _ Hk Hk2). now rewrite !andb_false_r. }
+  { intros p w Hp. assert (Hd : dom_of t p = true) by (unfold dom_of; now rewrite Hp).
+    specialize (Hc _ Hd). unfold conflict in Hc. now apply orb_false_iff in Hc. }
   destruct (add t (name :: k) s0) as [t'|] eqn:Ha.
   - exists t'. destruct (add_spec t t' _ _ Hwf Ha). auto.
   - exfalso. apply (add_ok_iff t (name :: k) s0 Hwf) in Hcf. congruence.
 Qed.
 
 Lemma client_delete_lookup (t : tree scalar) k :
-  wf_tree t -> (forall p s, lookup t p = Some s -> exists k, p = name :: k /\ Keys k) -> Keys k ->
+  wf_tree t -> Keys k -> (forall s, dom_of t s = true -> strict_prefix (name :: k) s = false) ->
   wf_tree (fst (delete t (name :: k))) /\
   forall p, lookup (fst (delete t (name :: k))) p = if path_eqb p (name :: k) then None else lookup t p.
 Proof.
-  intros Hwf Hst Hk. unfold delete. destruct (delete_spec t (name :: k) (fun _ => true) Hwf) as (Hwf' & Hl & _).
+  intros Hwf Hk Hc. unfold delete. destruct (delete_spec t (name :: k) (fun _ => true) Hwf) as (Hwf' & Hl & _).
   split; [assumption|]. intros p. rewrite Hl. unfold sel.
   destruct (lookup t p) as [v|] eqn:Hp; [|now destruct (path_eqb p (name :: k))].
-  destruct (Hst _ _ Hp) as (k2 & -> & Hk2). rewrite andb_true_r.
+  rewrite andb_true_r.
   rewrite qmatch_glob_free by (cbn; rewrite name_ng; cbn; now apply Keys_gf).
-  cbn [is_prefix path_eqb]. rewrite String.eqb_refl. cbn [andb].
-  destruct (path_eqb_spec k2 k) as [->|Hne]; [now rewrite is_prefix_refl|].
-  destruct (is_prefix k k2) eqn:Hpre; [|reflexivity].
-  apply is_prefix_strict_or_eq in Hpre as [->|Hs]; [congruence|].
-  rewrite (Keys_pf _ _ Hk Hk2) in Hs. discriminate.
+  destruct (path_eqb_spec p (name :: k)) as [->|Hne]; [now rewrite is_prefix_refl|].
+  destruct (is_prefix (name :: k) p) eqn:Hpre; [|reflexivity].
+  apply is_prefix_strict_or_eq in Hpre as [E|Hs]; [congruence|].
+  rewrite Hc in Hs; [discriminate|]. unfold dom_of. now rewrite Hp.
 Qed.
 
 Lemma send_step T H TF sb i q' :
@@ -941,8 +1130,9 @@ Lemma send_step T H TF sb i q' :
   sub_inv T H TF {| sb_target := sb_target sb; sb_query := sb_query sb; sb_queue := q';
                     sb_client := deliver H (sb_client sb) i |}.
 Proof.
-  intros [S1 S2 S3 S4 S5 S6 S7] Hq. rewrite Hq in *.
+  intros [S1 S2 S3 S4 S5 S6 S7 S8] Hq. rewrite Hq in *.
   assert (Hit : item_ok H i) by (apply S5; now left).
+  cbn [map safeD] in S8. destruct S8 as [Hcond Hsafe].
   assert (Hlive : forall k g, lookup T k = Some g ->
             match last_conc H (name :: k) q' with None => True | Some j => j = QLeaf g end).
   { intros k g Hl. specialize (S7 _ _ Hl). cbn [last_conc] in S7.
@@ -950,6 +1140,7 @@ Proof.
   (* the effect of delivering [i] on the client's tree *)
   assert (Heff : exists c', deliver H (sb_client sb) i = c' /\ cl_err c' = false /\ wf_tree (cl_tree c') /\
      (forall p s, lookup (cl_tree c') p = Some s -> exists k, p = name :: k /\ Keys k) /\
+     (forall s, dom_of (cl_tree c') s = stepD (dom_of (cl_tree (sb_client sb))) (ev H i) s) /\
      forall k, Keys k -> lookup (cl_tree c') (name :: k) =
         if concerns H (name :: k) i
         then match i with
@@ -957,37 +1148,40 @@ Proof.
              | _ => None
              end
         else lookup (cl_tree (sb_client sb)) (name :: k)).
-  { destruct i as [g|d|]; cbn [deliver item_ok concerns] in *.
-    - destruct Hit as (r & Hr & Hok & Hu). rewrite Hr. unfold client_recv. rewrite S2.
+  { destruct i as [g|d|]; cbn [deliver item_ok concerns ev] in *.
+    - destruct Hit as (r & Hr & Hok & Hu). rewrite Hr in *. unfold client_recv. rewrite S2.
       unfold resp_of_leaf. cbn [rs_prefix rs_updates rs_deletes client_updates].
       destruct (to_scalar (lr_val r)) as [s0|] eqn:Hs; [|exfalso; now apply (Vals_dec _ (ro_val r Hok))].
       change (to_strings_gp (lr_prefix r) true ++ to_strings_gp (lr_path r) false) with (full_path r).
-      rewrite (full_path_ok r Hok).
-      destruct (client_add_lookup _ (idx r) s0 S3 S4 (ro_key r Hok)) as (t' & Ha & Hwf' & Hl').
+      rewrite (full_path_ok r Hok) in *. cbn [condD] in Hcond.
+      destruct (client_add_lookup _ (idx r) s0 S3 Hcond) as (t' & Ha & Hwf' & Hl').
       rewrite Ha. cbn [client_updates client_deletes fold_left]. eexists. split; [reflexivity|].
-      cbn [cl_err cl_tree]. split; [reflexivity|]. split; [assumption|]. split.
+      cbn [cl_err cl_tree]. split; [reflexivity|]. split; [assumption|]. split; [|split].
       + intros p s. rewrite Hl'. destruct (path_eqb_spec p (name :: idx r)) as [->|_]; [|apply S4].
         intros _. exists (idx r). split; [reflexivity|apply Hok].
+      + intros s. cbn [stepD]. unfold dom_of. rewrite Hl'. now destruct (path_eqb s (name :: idx r)).
       + intros k Hk. rewrite Hl'. rewrite (path_eqb_sym_b (name :: k)). reflexivity.
     - destruct Hit as (k0 & Hd & Hk0 & Hu). unfold client_recv. rewrite S2.
       unfold resp_of_del. cbn [rs_prefix rs_updates rs_deletes client_updates client_deletes fold_left].
       assert (Hdf : to_strings_gp {| g_origin := d_origin d; g_target := d_target d; g_elem := []; g_element := [] |} true
                     ++ to_strings_gp (d_path d) false = del_full d).
       { unfold del_full, to_strings_gp. cbn [g_target g_origin g_elem g_element]. now rewrite app_nil_r, <- app_assoc. }
-      rewrite Hdf, Hd. destruct (client_delete_lookup _ k0 S3 S4 Hk0) as [Hwf' Hl'].
-      eexists. split; [reflexivity|]. cbn [cl_err cl_tree]. split; [reflexivity|]. split; [assumption|]. split.
+      rewrite Hdf, Hd in *. cbn [condD] in Hcond. destruct (client_delete_lookup _ k0 S3 Hk0 Hcond) as [Hwf' Hl'].
+      eexists. split; [reflexivity|]. cbn [cl_err cl_tree]. split; [reflexivity|]. split; [assumption|].
+      split; [|split].
       + intros p s. rewrite Hl'. destruct (path_eqb p (name :: k0)); [discriminate|apply S4].
+      + intros s. cbn [stepD]. unfold dom_of. rewrite Hl'. now destruct (path_eqb s (name :: k0)).
       + intros k Hk. rewrite Hl'. rewrite (path_eqb_sym_b (name :: k)). reflexivity.
-    - unfold client_sync. rewrite S2. eexists. split; [reflexivity|]. cbn [cl_err cl_tree]. auto. }
-  destruct Heff as (c' & -> & E1 & E2 & E3 & E4).
+    - unfold client_sync. rewrite S2. eexists. split; [reflexivity|]. cbn [cl_err cl_tree stepD]. auto. }
+  destruct Heff as (c' & -> & E1 & E2 & E3 & E5 & E4).
   constructor; cbn [sb_query sb_queue sb_client]; auto.
   - intros j Hj. apply S5. now right.
   - intros k Hk. specialize (S6 k Hk). unfold final in *. cbn [last_conc] in S6.
     destruct (last_conc H (name :: k) q') as [j|]; [assumption|].
     rewrite (E4 k Hk). destruct (concerns H (name :: k) i); [|assumption].
     destruct i; assumption.
+  - eapply safeD_ext; [|exact Hsafe]. intros s. symmetry. apply E5.
 Qed.
-
 
 Lemma drain_steps T H TF : forall q sb,
   sub_inv T H TF sb -> sb_queue sb = q ->
@@ -1028,7 +1222,7 @@ Lemma subscribe_step T H gen TF (q : cquery) :
   sub_inv T H TF {| sb_target := name; sb_query := Q;
                     sb_queue := map QLeaf (map snd (query T Qr)) ++ [QSync]; sb_client := client0 |}.
 Proof.
-  intros [N1 N2 N3 N4 _] HQ Ht Hcp.
+  intros [N1 N2 N3 N4 Npf _] HQ Ht Hcp.
   assert (Hqr : glob_free Qr = true).
   { pose proof Q_gf as Hg. rewrite Q_eq in Hg. cbn in Hg. now apply andb_true_iff in Hg as [_ Hg]. }
   assert (Hunder : forall k, under k = qmatch Qr k).
@@ -1068,6 +1262,23 @@ Proof.
   - intros k g Hl.
     destruct (last_conc H (name :: k) (map QLeaf (map snd (query T Qr)) ++ [QSync])) as [i|] eqn:El; [|exact I].
     apply last_conc_In in El as [Hi Hc]. destruct (Hconc k i Hi Hc) as (g' & -> & Hl'). congruence.
+  - (* safe: the snapshot leaves are pairwise conflict-free *)
+    rewrite map_app. apply safeD_app. split; [|cbn; auto].
+    assert (G : forall l dom,
+       (forall k g, In (k, g) l -> lookup T k = Some g) ->
+       (forall s, dom s = true -> exists k', s = name :: k' /\ TF k' <> None) ->
+       safeD dom (map (ev H) (map QLeaf (map snd l)))).
+    { induction l as [|[k g] l IH]; intros dom Hl Hdom; cbn [map snd safeD ev]; [exact I|].
+      destruct (N2 _ _ (Hl k g (or_introl eq_refl))) as (_ & r & Hr & Hok & Hidx & Htf).
+      rewrite Hr, (full_path_ok r Hok), Hidx. cbn [condD stepD]. split.
+      - intros s Hs. destruct (Hdom s Hs) as (k' & -> & Hk'). rewrite conflict_cons. unfold conflict.
+        destruct (TF k') as [y|] eqn:Ey; [|congruence].
+        now rewrite (Npf _ _ _ _ Ey Htf), (Npf _ _ _ _ Htf Ey).
+      - apply IH; [intros; apply Hl; now right|]. intros s Hs. apply orb_true_iff in Hs as [Hs|Hs]; [|auto].
+        apply path_eqb_eq in Hs. exists k. split; [assumption|congruence]. }
+    apply G.
+    + intros k g Hkg. now apply (query_exact T Qr k g N1) in Hkg as [Hl _].
+    + intros s Hs. unfold dom_of in Hs. cbn in Hs. discriminate.
 Qed.
 
 
@@ -1110,6 +1321,20 @@ Definition tf_item (TF : tfun) (it : item) : tfun :=
   | IUpd n => tf_deletes (tf_updates TF (spre n) (n_ts n) (n_updates n)) (spre n) (n_ts n) (n_deletes n)
   end.
 
+Definition pf_item (TF : tfun) (it : item) : Prop :=
+  match it with
+  | ISync => True
+  | IUpd n => pf_upds TF (spre n) (n_ts n) (n_updates n)
+  end.
+
+(** no update of the history meets a stored path that is a proper prefix or
+    extension of its own (prefix-freeness at each instant) *)
+Fixpoint pf_items (TF : tfun) (its : list item) : Prop :=
+  match its with
+  | [] => True
+  | it :: rest => pf_item TF it /\ pf_items (tf_item TF it) rest
+  end.
+
 Definition tf0 : tfun := fun _ => None.
 Definition tf_run (c : list item) : tfun := fold_left tf_item c tf0.
 
@@ -1121,11 +1346,11 @@ Definition bound_opt (TF : tfun) (last : option Z) : Prop :=
   match last with Some t => tf_bound TF t | None => forall k, TF k = None end.
 
 Lemma ingest_own st TF it last :
-  pinv st TF -> item_good it -> bound_opt TF last -> ts_increasing last [it] = true ->
+  pinv st TF -> item_good it -> pf_item TF it -> bound_opt TF last -> ts_increasing last [it] = true ->
   pinv (ingest st name it) (tf_item TF it) /\
   bound_opt (tf_item TF it) (match it with IUpd n => Some (n_ts n) | ISync => last end).
 Proof.
-  intros [Hf (T & HT & Hn)] Hg Hb Hts. unfold ingest. rewrite Hf.
+  intros [Hf (T & HT & Hn)] Hg Hpfi Hb Hts. unfold ingest. rewrite Hf.
   destruct it as [|n]; [split; [split; eauto|assumption]|].
   rewrite stamp_spre. cbn [n_prefix]. rewrite HT. destruct Hg as [Hm Hus].
   assert (Hb' : tf_bound TF (n_ts n)).
@@ -1134,7 +1359,7 @@ Proof.
     - intros k t0 v E. now rewrite Hb in E. }
   pose proof (noti_step {| w_tree := T; w_heap := ps_heap st; w_gen := ps_gen st; w_sub := ps_sub st; w_fault := None |}
                 TF (spre n) (n_ts n) (n_updates n) (n_deletes n)
-                (conj eq_refl Hn) Hb' (spre_target n) (spre_origin n) Hm Hus) as [[Hwf Hwn] Hbb].
+                (conj eq_refl Hn) Hb' (spre_target n) (spre_origin n) Hm Hus Hpfi) as [[Hwf Hwn] Hbb].
   cbn zeta in Hwf, Hwn. split; [|exact Hbb]. split; [exact Hwf|].
   cbn [ps_cache ps_heap ps_gen ps_sub]. eexists. split; [|exact Hwn].
   rewrite assoc_aset. now rewrite String.eqb_refl.
@@ -1149,12 +1374,13 @@ Proof.
 Qed.
 
 Lemma ingest_all : forall rem st TF last,
-  pinv st TF -> Forall item_good rem -> bound_opt TF last -> ts_increasing last rem = true ->
+  pinv st TF -> Forall item_good rem -> pf_items TF rem -> bound_opt TF last -> ts_increasing last rem = true ->
   pinv (fold_left (fun st it => ingest st name it) rem st) (fold_left tf_item rem TF).
 Proof.
-  induction rem as [|it rem IH]; intros st TF last Hp Hg Hb Hts; cbn [fold_left]; [assumption|].
+  induction rem as [|it rem IH]; intros st TF last Hp Hg Hpf Hb Hts; cbn [fold_left]; [assumption|].
   inversion Hg as [|? ? Hg1 Hg2]; subst. destruct (ts_increasing_cons _ _ _ Hts) as [Ht1 Ht2].
-  destruct (ingest_own st TF it last Hp Hg1 Hb Ht1) as [Hp' Hb']. eapply IH; eauto.
+  destruct Hpf as [Hpf1 Hpf2].
+  destruct (ingest_own st TF it last Hp Hg1 Hpf1 Hb Ht1) as [Hp' Hb']. eapply IH; eauto.
 Qed.
 
 Variable cq : cquery.
@@ -1254,6 +1480,7 @@ Qed.
 Variable s : list item.                    (* the subscribed target's stream *)
 Hypothesis s_good : Forall item_good s.
 Hypothesis s_ts : ts_increasing None s = true.
+Hypothesis s_pf : pf_items tf0 s.
 
 Definition last_ts (c : list item) : option Z :=
   fold_left (fun l it => match it with IUpd n => Some (n_ts n) | ISync => l end) c None.
@@ -1266,6 +1493,7 @@ Inductive rinv (rs : run_state) : Prop :=
     (ri_bound : bound_opt (tf_run ri_c) (last_ts ri_c))
     (ri_ts : ts_increasing (last_ts ri_c) ri_rem = true)
     (ri_good : Forall item_good ri_rem)
+    (ri_pf : pf_items (tf_run ri_c) ri_rem)
     (ri_sub : (rn_subres rs = None /\ ps_sub (rn_st rs) = None)
               \/ (rn_subres rs = Some SubOk /\ ps_sub (rn_st rs) <> None)).
 
@@ -1274,7 +1502,7 @@ Proof. destruct o; cbn; split; congruence. Qed.
 
 Lemma do_subscribe_rinv rs : rinv rs -> rinv (do_subscribe rs cq).
 Proof.
-  intros [c rem H1 H2 H3 H4 H5 H6 H7]. unfold do_subscribe.
+  intros [c rem H1 H2 H3 H4 H5 H6 Hpf H7]. unfold do_subscribe.
   destruct H7 as [[Hr Hs]|[Hr Hs]]; rewrite Hr.
   - destruct (subscribe_pinv _ _ H3 Hs) as (st' & E & Hp & Hne). rewrite E.
     econstructor; cbn [rn_st rn_streams rn_subres]; eauto.
@@ -1284,11 +1512,12 @@ Qed.
 Lemma do_action_rinv rs a : rinv rs -> rinv (do_action cq rs a).
 Proof.
   intros Hrs. destruct a as [n'| |]; cbn [do_action].
-  - destruct Hrs as [c rem H1 H2 H3 H4 H5 H6 H7]. rewrite H2. cbn [assoc fst snd].
+  - destruct Hrs as [c rem H1 H2 H3 H4 H5 H6 Hpf H7]. rewrite H2. cbn [assoc fst snd].
     destruct (String.eqb_spec n' name) as [->|Hn]; [|econstructor; eauto].
     destruct rem as [|it rest]; [econstructor; eauto|].
     inversion H6 as [|? ? Hg1 Hg2]; subst. destruct (ts_increasing_cons _ _ _ H5) as [Ht1 Ht2].
-    destruct (ingest_own _ _ it _ H3 Hg1 H4 Ht1) as [Hp' Hb'].
+    destruct Hpf as [Hpf1 Hpf2].
+    destruct (ingest_own _ _ it _ H3 Hg1 Hpf1 H4 Ht1) as [Hp' Hb'].
     apply (Build_rinv _ (c ++ [it]) rest); cbn [rn_st rn_streams rn_subres].
     + now rewrite <- app_assoc.
     + cbn. now rewrite String.eqb_refl.
@@ -1296,10 +1525,11 @@ Proof.
     + unfold tf_run, last_ts. rewrite !fold_left_app. exact Hb'.
     + unfold last_ts. rewrite fold_left_app. exact Ht2.
     + assumption.
+    + unfold tf_run. rewrite fold_left_app. exact Hpf2.
     + destruct H7 as [[Hr Hs]|[Hr Hs]]; [left|right]; (split; [assumption|]).
       * apply sub_none_iff. rewrite ingest_sub_none. now apply sub_none_iff.
       * intros E. apply sub_none_iff in E. rewrite ingest_sub_none in E. apply sub_none_iff in E. contradiction.
-  - destruct Hrs as [c rem H1 H2 H3 H4 H5 H6 H7].
+  - destruct Hrs as [c rem H1 H2 H3 H4 H5 H6 Hpf H7].
     econstructor; cbn [rn_st rn_streams rn_subres]; eauto using send_pinv.
     assert (Hsn : sub_none (ps_sub (send_one (rn_st rs))) = sub_none (ps_sub (rn_st rs))).
     { unfold send_one. destruct (ps_sub (rn_st rs)) as [sb|] eqn:Hs; [|now rewrite Hs].
@@ -1338,10 +1568,10 @@ Proof.
   { induction acts as [|a acts IH]; intros rs Hrs; cbn [fold_left]; [assumption|].
     apply IH. now apply do_action_rinv. }
   specialize (Hall sched rs0 H0). set (rs1 := fold_left (do_action cq) sched rs0) in *.
-  destruct Hall as [c rem H1 H2 H3 H4 H5 H6 H7].
+  destruct Hall as [c rem H1 H2 H3 H4 H5 H6 Hpf H7].
   (* quiescence *)
   unfold quiesce. rewrite H2. unfold ingest_rest. cbn [fold_left fst snd].
-  pose proof (ingest_all rem _ _ _ H3 H6 H4 H5) as Hp.
+  pose proof (ingest_all rem _ _ _ H3 H6 Hpf H4 H5) as Hp.
   assert (Htf : fold_left tf_item rem (tf_run c) = tf_run s) by (unfold tf_run; now rewrite H1, fold_left_app).
   rewrite Htf in Hp.
   set (st1 := fold_left (fun st it => ingest st name it) rem (rn_st rs1)) in *.
@@ -1578,6 +1808,67 @@ Proof.
           intros t2 v2. destruct (path_eqb k0 _); [intros X; inversion X; lia|apply Ha]. }
         eapply G; [|exact E]. intros t2 v2 X. apply Hb' in X. lia.
 Qed.
+(** the executable check of PipelineCheck ([prefix_free_from]) implies the
+    instant-level prefix-freeness the relay proof uses *)
+Lemma pf_upds_of_check n : forall us TF f,
+  (forall k, TF k <> None -> In k (keys f)) ->
+  (forall u, In u us -> skey (spre name n) (fst u) = tkey (n_prefix n) (fst u)) ->
+  pf_keys f (map (fun u => tkey (n_prefix n) (fst u)) us) = true ->
+  pf_upds TF (spre name n) (n_ts n) us.
+Proof.
+  induction us as [|u us IH]; intros TF f Hdom Hk Hpf; cbn [pf_upds map pf_keys] in *; [exact I|].
+  apply andb_true_iff in Hpf as [Hc Hpf]. apply negb_true_iff in Hc.
+  rewrite (Hk u (or_introl eq_refl)). split.
+  - intros k' Hk'. unfold conflicts in Hc. unfold conflict.
+    destruct (strict_prefix k' (tkey (n_prefix n) (fst u)) || strict_prefix (tkey (n_prefix n) (fst u)) k') eqn:E; [|reflexivity].
+    exfalso. assert (Hex : existsb (fun kv => strict_prefix (fst kv) (tkey (n_prefix n) (fst u))
+                                     || strict_prefix (tkey (n_prefix n) (fst u)) (fst kv)) f = true); [|congruence].
+    apply existsb_exists. specialize (Hdom _ Hk'). apply in_map_iff in Hdom as ([k0 v0] & E0 & Hin). cbn in E0. subst k0.
+    exists (k', v0). split; [assumption|exact E].
+  - apply (IH _ ((tkey (n_prefix n) (fst u), TVBool true) :: f)); [|intros; apply Hk; now right|exact Hpf].
+    intros k0. unfold tfset. destruct (path_eqb_spec k0 (tkey (n_prefix n) (fst u))) as [->|_]; [intros _; now left|].
+    intros H0. right. now apply Hdom.
+Qed.
+
+Lemma pf_items_of_check : forall rem c F last,
+  (forall k, option_map snd (tf_run name c k) = flook F k) ->
+  (match last with Some t => forall k t0 v, tf_run name c k = Some (t0, v) -> t0 <= t
+                 | None => forall k, tf_run name c k = None end) ->
+  ts_increasing last rem = true -> Forall no_porigin rem ->
+  prefix_free_from F rem = true ->
+  pf_items name (tf_run name c) rem.
+Proof.
+  induction rem as [|it rem IH]; intros c F last HR Hb Hts Hno Hpf; cbn [pf_items]; [exact I|].
+  apply Forall_cons_iff in Hno as [Hn1 Hn2]. cbn [prefix_free_from] in Hpf.
+  apply andb_true_iff in Hpf as [Hpf1 Hpf2].
+  assert (Hdom : forall k, tf_run name c k <> None -> In k (keys F)).
+  { intros k Hk. specialize (HR k). destruct (tf_run name c k) as [[t0 v]|]; [|congruence]. cbn in HR.
+    symmetry in HR. clear -HR. induction F as [|[k' v'] F IH]; cbn in *; [discriminate|].
+    destruct (path_eqb_spec k k'); [now left|right; auto]. }
+  assert (Hstep : tf_item name (tf_run name c) it = tf_run name (c ++ [it]))
+    by (unfold tf_run; now rewrite fold_left_app).
+  rewrite Hstep. destruct it as [|n].
+  - split; [exact I|]. apply (IH (c ++ [ISync]) F last); auto; unfold tf_run in *; rewrite fold_left_app; cbn; auto.
+  - cbn in Hts. apply andb_true_iff in Hts as [Hlt Hts]. split.
+    + cbn [pf_item]. apply (pf_upds_of_check n _ _ F Hdom); [|exact Hpf1].
+      intros u Hu. apply skey_tkey. intros E. now apply (proj1 (Hn1 E)).
+    + assert (Hb' : forall k t0 v, tf_run name c k = Some (t0, v) -> t0 < n_ts n).
+      { intros k0 t0 v E. destruct last as [t|].
+        - apply Z.ltb_lt in Hlt. specialize (Hb _ _ _ E). lia.
+        - now rewrite Hb in E. }
+      apply (IH (c ++ [IUpd n]) (replay_step F (IUpd n)) (Some (n_ts n))); auto.
+      * intros k0. unfold tf_run. rewrite fold_left_app. cbn [fold_left]. now apply item_equiv.
+      * intros k0 t0 v. unfold tf_run. rewrite fold_left_app. cbn [fold_left tf_item].
+        rewrite tf_deletes_closed. fold (tf_run name c).
+        destruct (tf_updates (tf_run name c) (spre name n) (n_ts n) (n_updates n) k0) as [[t1 v1]|] eqn:E; [|discriminate].
+        destruct (_ && _); [discriminate|]. intros E'; inversion E'; subst.
+        rewrite tf_updates_closed in E. clear -E Hb'.
+        assert (G : forall us a, (forall t0 v, a = Some (t0, v) -> t0 <= n_ts n) ->
+                  tupd_of (spre name n) (n_ts n) us k0 a = Some (t0, v) -> t0 <= n_ts n).
+        { induction us as [|u us IH]; cbn; intros a Ha; [apply Ha|]. apply IH.
+          intros t2 v2. destruct (path_eqb k0 _); [intros X; inversion X; lia|apply Ha]. }
+        eapply G; [|exact E]. intros t2 v2 X. apply Hb' in X. lia.
+Qed.
 End Equiv.
 
 (** * The relay theorem for one streaming target, every schedule *)
@@ -1608,7 +1899,6 @@ Qed.
 
 Theorem relay_single (name : string) (Keys : path -> Prop) (Vals : tv -> Prop) (Q Qr : path)
     (cq : cquery) (s : list item) (cfg : config) (sched : list action) :
-  (forall a b : path, Keys a -> Keys b -> strict_prefix a b = false) ->
   (forall a : path, Keys a -> glob_free a = true) ->
   (forall v : tv, Vals v -> to_scalar v <> None) ->
   (forall a b : tv, Vals a -> Vals b -> tv_equal a b = true -> to_scalar a = to_scalar b) ->
@@ -1618,12 +1908,15 @@ Theorem relay_single (name : string) (Keys : path -> Prop) (Vals : tv -> Prop) (
   sub_query cq = Q -> g_target (cq_prefix cq) = name ->
   complete_path (cq_prefix cq) (cq_path cq) = Some Qr ->
   Forall (item_good name Keys Vals) s -> Forall no_porigin s -> ts_increasing None s = true ->
+  prefix_free_from [] s = true ->
   validate cfg = true -> In name (keys (cf_targets cfg)) ->
   exists l, pipeline cfg [(name, s)] cq sched = VLeaves l /\
             Permutation l (selects Q (stamp_paths name (replay s))).
 Proof.
-  intros K1 K2 V1 V2 HQ HQg HQa Hne Hq Ht Hc Hgood Hno Hts Hv Hin.
-  destruct (relay_tf name Keys Vals Q Qr K1 K2 V1 V2 HQ HQg HQa Hne cq Hq Ht Hc s Hgood Hts cfg sched Hv Hin)
+  intros K2 V1 V2 HQ HQg HQa Hne Hq Ht Hc Hgood Hno Hts Hpfc Hv Hin.
+  assert (Hpf : pf_items name tf0 s).
+  { apply (pf_items_of_check name s [] [] None); auto. }
+  destruct (relay_tf name Keys Vals Q Qr K2 V1 V2 HQ HQg HQa Hne cq Hq Ht Hc s Hgood Hts Hpf cfg sched Hv Hin)
     as (l & Hp & Hnd & Hl).
   exists l. split; [assumption|].
   pose proof (NoDup_replay s) as HndF.
@@ -1872,7 +2165,6 @@ Variable name : string.
 Variable Keys : path -> Prop.
 Variable Vals : tv -> Prop.
 Variable Q Qr : path.
-Hypothesis Keys_pf : forall a b, Keys a -> Keys b -> strict_prefix a b = false.
 Hypothesis Keys_gf : forall a, Keys a -> glob_free a = true.
 Hypothesis Vals_dec : forall v, Vals v -> to_scalar v <> None.
 Hypothesis Vals_canon : forall a b, Vals a -> Vals b -> tv_equal a b = true -> to_scalar a = to_scalar b.
@@ -1894,14 +2186,14 @@ Lemma ninv_frame n' T H H' gen gen' sub TF :
   ninv' T H gen sub TF -> heap_delta n' H H' -> n' <> name -> (gen <= gen')%nat -> heap_bound H' gen' ->
   ninv' T H' gen' sub TF.
 Proof.
-  intros [N1 N2 N3 N4 N5] Hd Hn Hg Hb.
+  intros [N1 N2 N3 N4 Npf N5] Hd Hn Hg Hb.
   assert (Hsame : forall g r, hget H g = Some r -> rec_ok name Keys Vals r -> hget H' g = Some r).
   { intros g r Hr Hok. destruct (Hd g) as [E|[[Hnone|(r0 & Hr0 & Ho0)] _]]; [congruence|congruence|].
     rewrite Hr in Hr0. inversion Hr0; subst r0. exfalso. apply Hn. rewrite <- Ho0. apply Hok. }
   constructor; auto.
   - intros k g Hl. destruct (N2 _ _ Hl) as (Hlt & r & Hr & Hok & Hrest). split; [lia|]. exists r. split; [|auto].
     now apply Hsame.
-  - destruct sub as [sb|]; [|exact I]. destruct N5 as [S1 S2 S3 S4 S5 S6 S7].
+  - destruct sub as [sb|]; [|exact I]. destruct N5 as [S1 S2 S3 S4 S5 S6 S7 S8].
     assert (Hconc : forall p i, In i (sb_queue sb) -> concerns H' p i = concerns H p i).
     { intros p i Hi. specialize (S5 i Hi). destruct i as [g|d|]; cbn [concerns]; try reflexivity.
       destruct S5 as (r & Hr & Hok & _). now rewrite Hr, (Hsame _ _ Hr Hok). }
@@ -1915,6 +2207,9 @@ Proof.
       apply last_conc_In in El as [Hi _]. destruct (S5 _ Hi) as (r & Hr & Hok & _).
       rewrite (Hsame _ _ Hr Hok). rewrite Hr in S6. exact S6.
     + intros k g Hl. rewrite Hlast. now apply S7.
+    + rewrite (ev_ext H H' (sb_queue sb)); [assumption|].
+      intros i Hi. specialize (S5 i Hi). destruct i as [g|d|]; cbn [ev item_ok] in *; try reflexivity.
+      destruct S5 as (r & Hr & Hok & _). now rewrite Hr, (Hsame _ _ Hr Hok).
 Qed.
 
 Lemma ingest_not_target st n it : assoc n (ps_cache st) = None -> ingest st n it = st.
@@ -1934,7 +2229,7 @@ Proof.
   split; [assumption|]. exists T. split; [rewrite Hc by congruence; assumption|].
   assert (Hsub : ps_sub (ingest st n' it) = ps_sub st).
   { destruct (ps_sub st) as [sb|] eqn:Esb.
-    - apply (Hs sb eq_refl). intros p. destruct Hni as [_ _ _ _ N5]. rewrite (si_query _ _ _ _ _ _ _ _ N5), Q_eq.
+    - apply (Hs sb eq_refl). intros p. destruct Hni as [_ _ _ _ _ N5]. rewrite (si_query _ _ _ _ _ _ _ _ N5), Q_eq.
       apply mmatch_other_head.
       + apply (name_ng name Q Qr Q_eq Q_gf).
       + apply (gi_names st Hg n' (assoc_Some_key _ _ _ Et)).
@@ -1968,6 +2263,7 @@ Qed.
 Variable s : list item.
 Hypothesis s_good : Forall (item_good name Keys Vals) s.
 Hypothesis s_ts : ts_increasing None s = true.
+Hypothesis s_pf : pf_items name tf0 s.
 
 Definition streams_ok (ss : streams) : Prop :=
   forall n' l, In (n', l) ss -> Forall (item_nometa n') l.
@@ -1983,6 +2279,7 @@ Inductive minv (rs : run_state) : Prop :=
     (m_bound : bound_opt (tf_run name c) (last_ts c))
     (m_ts : ts_increasing (last_ts c) rem = true)
     (m_good : Forall (item_good name Keys Vals) rem)
+    (m_pf : pf_items name (tf_run name c) rem)
     (m_sub : (rn_subres rs = None /\ ps_sub (rn_st rs) = None)
              \/ (rn_subres rs = Some SubOk /\ ps_sub (rn_st rs) <> None)).
 
@@ -2007,7 +2304,7 @@ Qed.
 
 Lemma do_action_minv rs a : minv rs -> minv (do_action cq rs a).
 Proof.
-  intros [c rem H1 H2 Hnd Hok H3 Hg H4 H5 H6 H7]. destruct a as [n'| |]; cbn [do_action].
+  intros [c rem H1 H2 Hnd Hok H3 Hg H4 H5 H6 Hpf H7]. destruct a as [n'| |]; cbn [do_action].
   - destruct (assoc n' (rn_streams rs)) as [[|it rest]|] eqn:Ea; try (econstructor; eauto; fail).
     assert (Hnm : item_nometa n' it).
     { apply assoc_In in Ea. specialize (Hok _ _ Ea). now apply Forall_cons_iff in Hok as [Hok _]. }
@@ -2015,8 +2312,9 @@ Proof.
     destruct (String.eqb_spec n' name) as [->|Hn].
     + rewrite H2 in Ea. inversion Ea; subst rem.
       apply Forall_cons_iff in H6 as [Hg1 Hg2]. destruct (ts_increasing_cons _ _ _ H5) as [Ht1 Ht2].
-      destruct (ingest_own name Keys Vals Q Qr Keys_pf Keys_gf Vals_dec Vals_canon Q_eq Q_gf Q_above name_ne
-                  _ _ it _ H3 Hg1 H4 Ht1) as [Hp' Hb'].
+      destruct Hpf as [Hpf1 Hpf2].
+      edestruct (ingest_own name Keys Vals Q Qr) with (st := rn_st rs) (TF := tf_run name c) (it := it)
+        (last := last_ts c) as [Hp' Hb']; eauto.
       apply (Build_minv _ (c ++ [it]) rest); cbn [rn_st rn_streams rn_subres].
       * now rewrite <- app_assoc.
       * rewrite assoc_aset. now rewrite String.eqb_refl.
@@ -2027,6 +2325,7 @@ Proof.
       * unfold tf_run, last_ts. rewrite !fold_left_app. exact Hb'.
       * unfold last_ts. rewrite fold_left_app. exact Ht2.
       * assumption.
+      * unfold tf_run. rewrite fold_left_app. exact Hpf2.
       * now apply sub_consistent_ingest.
     + apply (Build_minv _ c rem); cbn [rn_st rn_streams rn_subres]; auto.
       * rewrite assoc_aset. destruct (String.eqb_spec name n'); [congruence|assumption].
@@ -2035,7 +2334,7 @@ Proof.
       * now apply ingest_other_pinv.
       * now apply sub_consistent_ingest.
   - apply (Build_minv _ c rem); cbn [rn_st rn_streams rn_subres]; auto.
-    + now apply (send_pinv name Keys Vals Q Qr).
+    + eapply send_pinv; eauto.
     + now apply send_ginv.
     + assert (Hsn : sub_none (ps_sub (send_one (rn_st rs))) = sub_none (ps_sub (rn_st rs))).
       { unfold send_one. destruct (ps_sub (rn_st rs)) as [sb|] eqn:Hs; [|now rewrite Hs].
@@ -2044,8 +2343,8 @@ Proof.
       * apply sub_none_iff. rewrite Hsn. now apply sub_none_iff.
       * intros E. apply (proj2 (sub_none_iff _)) in E. rewrite Hsn in E. apply sub_none_iff in E. contradiction.
   - unfold do_subscribe. destruct H7 as [[Hr Hs]|[Hr Hs]]; rewrite Hr.
-    + destruct (subscribe_pinv name Keys Vals Q Qr Q_eq Q_gf name_ne cq cq_query cq_target cq_complete _ _ H3 Hs)
-        as (st' & E & Hp & Hne).
+    + edestruct (subscribe_pinv name Keys Vals Q Qr) with (st := rn_st rs) (TF := tf_run name c)
+        as (st' & E & Hp & Hne); eauto.
       rewrite E. apply (Build_minv _ c rem); cbn [rn_st rn_streams rn_subres]; auto.
       eapply subscribe_ginv; eauto.
     + apply (Build_minv _ c rem); auto.
@@ -2056,7 +2355,7 @@ Lemma ingest_rest_minv : forall l st TF last rem,
   NoDup (keys l) -> streams_ok l ->
   pinv' st TF -> ginv st -> (rem = [] \/ bound_opt TF last) ->
   (match assoc name l with Some r => r = rem | None => rem = [] end) ->
-  ts_increasing last rem = true -> Forall (item_good name Keys Vals) rem ->
+  ts_increasing last rem = true -> Forall (item_good name Keys Vals) rem -> pf_items name TF rem ->
   pinv' (ingest_rest st l) (fold_left (tf_item name) rem TF) /\
   sub_none (ps_sub (ingest_rest st l)) = sub_none (ps_sub st).
 Proof.
@@ -2070,18 +2369,19 @@ Proof.
     destruct (IH (ingest st n' it) TF Hn Ho2 (ingest_other_pinv _ _ _ _ Hn Hg Hp Ho1)
                  (proj1 (ingest_ginv _ _ _ Hg Ho1))) as (A & B & C).
     split; [assumption|]. split; [assumption|]. now rewrite C, ingest_sub_none. }
-  assert (Hown : forall its st TF last, Forall (item_good name Keys Vals) its ->
+  assert (Hown : forall its st TF last, Forall (item_good name Keys Vals) its -> pf_items name TF its ->
             pinv' st TF -> ginv st -> bound_opt TF last -> ts_increasing last its = true ->
             pinv' (fold_left (fun st it => ingest st name it) its st) (fold_left (tf_item name) its TF) /\
             ginv (fold_left (fun st it => ingest st name it) its st) /\
             sub_none (ps_sub (fold_left (fun st it => ingest st name it) its st)) = sub_none (ps_sub st)).
-  { induction its as [|it its IH]; intros st TF last Hgood Hp Hg Hb Hts; cbn [fold_left]; [auto|].
+  { induction its as [|it its IH]; intros st TF last Hgood Hpfi Hp Hg Hb Hts; cbn [fold_left]; [auto|].
     apply Forall_cons_iff in Hgood as [Hg1 Hg2]. destruct (ts_increasing_cons _ _ _ Hts) as [Ht1 Ht2].
-    destruct (ingest_own name Keys Vals Q Qr Keys_pf Keys_gf Vals_dec Vals_canon Q_eq Q_gf Q_above name_ne
-                  _ _ it _ Hp Hg1 Hb Ht1) as [Hp' Hb'].
-    destruct (IH _ _ _ Hg2 Hp' (proj1 (ingest_ginv _ _ _ Hg (item_good_nometa _ Hg1))) Hb' Ht2) as (A & B & C).
+    destruct Hpfi as [Hpf1 Hpf2].
+    edestruct (ingest_own name Keys Vals Q Qr) with (st := st) (TF := TF) (it := it) (last := last)
+      as [Hp' Hb']; eauto.
+    destruct (IH _ _ _ Hg2 Hpf2 Hp' (proj1 (ingest_ginv _ _ _ Hg (item_good_nometa _ Hg1))) Hb' Ht2) as (A & B & C).
     split; [assumption|]. split; [assumption|]. now rewrite C, ingest_sub_none. }
-  induction l as [|[n' its] l IH]; intros st TF last rem Hnd Hok Hp Hg Hb Hrem Hts Hgood;
+  induction l as [|[n' its] l IH]; intros st TF last rem Hnd Hok Hp Hg Hb Hrem Hts Hgood Hpfr;
     unfold ingest_rest in *; cbn [fold_left fst snd].
   - cbn in Hrem. subst rem. cbn. auto.
   - apply NoDup_cons_iff in Hnd as [Hni Hnd']. cbn [assoc fst snd] in Hrem.
@@ -2092,14 +2392,15 @@ Proof.
       assert (Hrun : pinv' (fold_left (fun st it => ingest st name it) rem st) (fold_left (tf_item name) rem TF) /\
                      ginv (fold_left (fun st it => ingest st name it) rem st) /\
                      sub_none (ps_sub (fold_left (fun st it => ingest st name it) rem st)) = sub_none (ps_sub st)).
-      { destruct Hb as [->|Hb]; [cbn; auto|]. exact (Hown rem st TF last Hgood Hp Hg Hb Hts). }
+      { destruct Hb as [->|Hb]; [cbn; auto|]. exact (Hown rem st TF last Hgood Hpfr Hp Hg Hb Hts). }
       destruct Hrun as (A & B & C).
       assert (Hnone : assoc name l = None) by (apply assoc_None; exact Hni).
       destruct (IH _ _ None [] Hnd' Hok' A B (or_introl eq_refl)) as (A' & C'); auto.
       * now rewrite Hnone.
+      * exact I.
       * cbn in A'. split; [assumption|]. now rewrite C', C.
     + destruct (Hothers n' its st TF (not_eq_sym Hn) Hits Hp Hg) as (A & B & C).
-      destruct (IH _ _ last rem Hnd' Hok' A B Hb Hrem Hts Hgood) as (A' & C').
+      destruct (IH _ _ last rem Hnd' Hok' A B Hb Hrem Hts Hgood Hpfr) as (A' & C').
       split; [assumption|]. now rewrite C', C.
 Qed.
 
@@ -2171,7 +2472,7 @@ Proof.
   { induction acts as [|a acts IH]; intros rs Hrs; cbn [fold_left]; [assumption|].
     apply IH. now apply do_action_minv. }
   specialize (Hall sched rs0 H0). set (rs1 := fold_left (do_action cq) sched rs0) in *.
-  destruct Hall as [c rem H1 H2 Hnd Hok1 H3 Hg H4 H5 H6 H7].
+  destruct Hall as [c rem H1 H2 Hnd Hok1 H3 Hg H4 H5 H6 Hpf H7].
   unfold quiesce.
   destruct (ingest_rest_minv (rn_streams rs1) (rn_st rs1) (tf_run name c) (last_ts c) rem Hnd Hok1 H3 Hg
               (or_intror H4)) as (Hp & Hsn); auto.
@@ -2179,8 +2480,7 @@ Proof.
   assert (Htf : fold_left (tf_item name) rem (tf_run name c) = tf_run name s)
     by (unfold tf_run; now rewrite H1, fold_left_app).
   rewrite Htf in Hp.
-  apply (finish_view name Keys Vals Q Qr Keys_pf Keys_gf Vals_dec Q_eq Q_gf name_ne cq cq_query cq_target cq_complete
-           _ (rn_subres rs1) (tf_run name s) Hp).
+  eapply (finish_view name Keys Vals Q Qr) with (subres := rn_subres rs1); eauto.
   destruct H7 as [[Hr Hs']|[Hr Hs']]; [left|right]; (split; [assumption|]).
   - apply sub_none_iff. rewrite Hsn. now apply sub_none_iff.
   - intros E. apply (proj2 (sub_none_iff _)) in E. rewrite Hsn in E. apply sub_none_iff in E. contradiction.
@@ -2192,11 +2492,11 @@ End Multi.
 
 (** the stream conforms to a schema [Keys] and a value set [Vals] *)
 Definition conforms (name : string) (Keys : path -> Prop) (Vals : tv -> Prop) (s : list item) : Prop :=
-  Forall (item_good name Keys Vals) s /\ Forall no_porigin s /\ ts_increasing None s = true.
+  Forall (item_good name Keys Vals) s /\ Forall no_porigin s /\ ts_increasing None s = true
+  /\ prefix_free_from [] s = true.
 
 Theorem relay_multi (name : string) (Keys : path -> Prop) (Vals : tv -> Prop) (Q Qr : path)
     (cq : cquery) (s : list item) (cfg : config) (ss : streams) (sched : list action) :
-  (forall a b : path, Keys a -> Keys b -> strict_prefix a b = false) ->
   (forall a : path, Keys a -> glob_free a = true) ->
   (forall v : tv, Vals v -> to_scalar v <> None) ->
   (forall a b : tv, Vals a -> Vals b -> tv_equal a b = true -> to_scalar a = to_scalar b) ->
@@ -2213,10 +2513,12 @@ Theorem relay_multi (name : string) (Keys : path -> Prop) (Vals : tv -> Prop) (Q
   exists l, pipeline cfg ss cq sched = VLeaves l /\
             Permutation l (selects Q (stamp_paths name (replay s))).
 Proof.
-  intros K1 K2 V1 V2 HQ HQg HQa Hq Ht Hc (Hgood & Hno & Hts) Hv Hndt Hng Hin Hnds Hs Hok.
+  intros K2 V1 V2 HQ HQg HQa Hq Ht Hc (Hgood & Hno & Hts & Hpfc) Hv Hndt Hng Hin Hnds Hs Hok.
   assert (Hne : name <> "").
   { apply in_map_iff in Hin as ([n0 t] & E & Hnt). cbn in E. subst n0. now destruct (validate_In cfg name t Hv Hnt). }
-  destruct (relay_multi_tf name Keys Vals Q Qr K1 K2 V1 V2 HQ HQg HQa Hne cq Hq Ht Hc s Hgood Hts
+  assert (Hpf : pf_items name tf0 s).
+  { apply (pf_items_of_check name s [] [] None); auto. }
+  destruct (relay_multi_tf name Keys Vals Q Qr K2 V1 V2 HQ HQg HQa Hne cq Hq Ht Hc s Hgood Hts Hpf
               cfg ss sched Hv Hndt Hng Hin Hnds Hs Hok) as (l & Hp & Hnd & Hl).
   exists l. split; [assumption|].
   pose proof (NoDup_replay s) as HndF.
@@ -2232,6 +2534,32 @@ Proof.
     + intros [(k & v & Hkv & Hs' & ->) Hu]. exists k. split; [reflexivity|]. split; [exact Hu|].
       apply (flook_In _ _ _ HndF) in Hkv. specialize (Heq k). rewrite Hkv in Heq.
       destruct (tf_run name s k) as [[t0 v0]|]; [|discriminate]. cbn in Heq. inversion Heq; subst. exact Hs'.
+Qed.
+
+(** the same without the auxiliary key set: every update path is glob-free and
+    the subscription path does not run below it *)
+Definition stream_ok (name : string) (Vals : tv -> Prop) (Q : path) (s : list item) : Prop :=
+  conforms name (fun k => glob_free k = true /\ strict_prefix (name :: k) Q = false) Vals s.
+
+Theorem relay_faithful_all (name : string) (Vals : tv -> Prop) (Q Qr : path)
+    (cq : cquery) (s : list item) (cfg : config) (ss : streams) (sched : list action) :
+  (forall v : tv, Vals v -> to_scalar v <> None) ->
+  (forall a b : tv, Vals a -> Vals b -> tv_equal a b = true -> to_scalar a = to_scalar b) ->
+  Q = name :: Qr -> glob_free Q = true ->
+  sub_query cq = Q -> g_target (cq_prefix cq) = name ->
+  complete_path (cq_prefix cq) (cq_path cq) = Some Qr ->
+  stream_ok name Vals Q s ->
+  validate cfg = true -> NoDup (keys (cf_targets cfg)) ->
+  (forall n, In n (keys (cf_targets cfg)) -> is_glob n = false) ->
+  In name (keys (cf_targets cfg)) ->
+  NoDup (keys ss) -> assoc name ss = Some s ->
+  (forall n' l, In (n', l) ss -> Forall (item_nometa n') l) ->
+  exists l, pipeline cfg ss cq sched = VLeaves l /\
+            Permutation l (selects Q (stamp_paths name (replay s))).
+Proof.
+  intros V1 V2 HQ HQg Hq Ht Hc Hs. intros.
+  eapply (relay_multi name (fun k => glob_free k = true /\ strict_prefix (name :: k) Q = false) Vals Q Qr);
+    eauto; cbn; tauto.
 Qed.
 
 (** ** the hypotheses are satisfiable (and the conclusion is about a non-empty view) *)
@@ -2260,39 +2588,36 @@ Definition ss : streams := [("dev1", s1); ("dev2", s2)].
 Definition q : cquery :=
   {| cq_prefix := {| g_origin := ""; g_target := "dev1"; g_elem := []; g_element := [] |}; cq_path := gp "" [] |}.
 Definition sched : list action := [AIngest "dev1"; ASubscribe; AIngest "dev2"; ASend; AIngest "dev1"].
-Definition keyset : list path :=
-  [["openconfig"; "a"; "b"; "eth0"; "c"]; ["openconfig"; "a"; "d"]; ["foo"; "x"; "y"]].
 Definition valset : list tv := [TVInt 5; TVString "up"; TVDecimal 15 1].
 
 Lemma example :
   exists l, pipeline cfg ss q sched = VLeaves l /\
             Permutation l (selects ["dev1"] (stamp_paths "dev1" (replay s1))) /\ List.length l = 2%nat.
 Proof.
-  destruct (relay_multi "dev1" (fun k => In k keyset) (fun v => In v valset) ["dev1"] [] q s1 cfg ss sched)
+  destruct (relay_faithful_all "dev1" (fun v => In v valset) ["dev1"] [] q s1 cfg ss sched)
     as (l & Hl & Hp).
-  - intros a b Ha Hb. cbn in Ha, Hb.
-    repeat (destruct Ha as [<-|Ha]; [repeat (destruct Hb as [<-|Hb]; [reflexivity|]); contradiction|]). contradiction.
-  - intros a Ha. cbn in Ha. repeat (destruct Ha as [<-|Ha]; [reflexivity|]). contradiction.
   - intros v Hv. cbn in Hv. repeat (destruct Hv as [<-|Hv]; [discriminate|]). contradiction.
   - intros a b Ha Hb. cbn in Ha, Hb.
     repeat (destruct Ha as [<-|Ha]; [repeat (destruct Hb as [<-|Hb]; [cbn; congruence|]); contradiction|]). contradiction.
   - reflexivity.
   - reflexivity.
-  - intros k Hk. cbn in Hk. repeat (destruct Hk as [<-|Hk]; [reflexivity|]). contradiction.
   - reflexivity.
   - reflexivity.
   - reflexivity.
-  - split; [|split; [|reflexivity]].
+  - split; [|split; [|split; reflexivity]].
     + assert (Hi : forall nt, g_origin (spre "dev1" nt) <> meta_root ->
                 (forall u, In u (n_updates nt) ->
-                   rec_ok "dev1" (fun k => In k keyset) (fun v => In v valset)
+                   rec_ok "dev1" (fun k => glob_free k = true /\ strict_prefix ("dev1" :: k) ["dev1"] = false)
+                     (fun v => In v valset)
                      {| lr_ts := n_ts nt; lr_prefix := spre "dev1" nt; lr_path := fst u; lr_val := snd u |}) ->
-                item_good "dev1" (fun k => In k keyset) (fun v => In v valset) (IUpd nt))
+                item_good "dev1" (fun k => glob_free k = true /\ strict_prefix ("dev1" :: k) ["dev1"] = false)
+                  (fun v => In v valset) (IUpd nt))
         by (intros nt A B; split; assumption).
       unfold s1. repeat (apply Forall_cons; [|]); try apply Forall_nil; try exact I; apply Hi;
         try (cbn; discriminate); intros u Hu; cbn in Hu;
         repeat (destruct Hu as [<-|Hu];
-                [constructor; [reflexivity|cbn; discriminate|cbn; discriminate|cbn; auto 10|cbn; auto 10]|]); contradiction.
+                [constructor; [reflexivity|cbn; discriminate|cbn; discriminate|cbn; split; reflexivity|cbn; auto 10]|]);
+        contradiction.
     + unfold s1. repeat (apply Forall_cons; [|]); try apply Forall_nil; try exact I;
         cbn; try discriminate; intros _; split; intros x Hx; cbn in Hx;
         repeat (destruct Hx as [<-|Hx]; [reflexivity|]); contradiction.
@@ -2341,6 +2666,41 @@ Proof.
   apply Permutation_length_1 in Hp. discriminate.
 Qed.
 
+(** outside the prefix-freeness hypothesis: one notification deletes the leaf
+    [a] and writes [a/b].  gNMI applies the delete first; the cache applies the
+    update first, refuses it ("already a leaf") and then deletes [a], so the
+    subscriber ends with nothing ([prefix_free_from] rejects this stream, which
+    is why relay_faithful does not cover it). *)
+Definition s_replace : list item :=
+  [upd 100 None (gp "" [el "a"]) (TVInt 1);
+   IUpd {| n_ts := 200; n_prefix := None; n_updates := [(gp "" [el "a"; el "b"], TVInt 2)];
+           n_deletes := [gp "" [el "a"]] |}].
+
+Lemma leaf_to_subtree_refuted :
+  PipelineCheck.prefix_free_from [] s_replace = false /\
+  exists l, pipeline cfg1 [("dev1", s_replace)] q [ASubscribe] = VLeaves l /\
+            ~ Permutation l (selects ["dev1"] (stamp_paths "dev1" (replay s_replace))).
+Proof.
+  split; [vm_compute; reflexivity|].
+  eexists. split; [vm_compute; reflexivity|]. vm_compute. intros Hp.
+  apply Permutation_nil in Hp. discriminate.
+Qed.
+
+(** regression witness for DEFECT C01_3 (fixed by 6b65ac8): prefix in elem, path
+    in the deprecated element encoding.  The delete notification of the code
+    before the fix named only the prefix subtree; now it names the leaf
+    (corpus/C01/fixed_mixed_encoding_delete.json). *)
+Definition gel (l : list string) : gpath := {| g_origin := ""; g_target := ""; g_elem := []; g_element := l |}.
+Definition r_mixed : leafrec :=
+  {| lr_ts := 100;
+     lr_prefix := {| g_origin := "openconfig"; g_target := "dev1"; g_elem := [el "a"]; g_element := [] |};
+     lr_path := gel ["b"]; lr_val := TVInt 1 |}.
+
+Lemma mixed_encoding_regression :
+  full_path r_mixed = ["dev1"; "openconfig"; "a"; "b"] /\
+  del_full (to_delete_gen true r_mixed 300) = ["dev1"; "openconfig"; "a"] /\
+  del_full (to_delete r_mixed 300) = full_path r_mixed.
+Proof. vm_compute. repeat split; reflexivity. Qed.
 End Refuted.
 
 (** * Soundness of the executable property checker K_P (PipelineCheck.kp_client) *)
